@@ -7,6 +7,7 @@ import bindgen as G
 import bindlib as B
 
 _UNIS: dict[str, B.Universe] = {}
+_GENERATED: set[str] = set()  # universes made by new_universe (random ones): the only ones drop_universes forgets
 
 
 def uni_of(a) -> B.Universe:
@@ -17,6 +18,25 @@ def uni_of(a) -> B.Universe:
     _UNIS[u.modname] = u
     a["_uni"] = u.modname
     return u
+
+
+def drop_universes():
+    """Forget the class universes built so far (called by the framework between correspondence ops and
+    oracles).  XmlContext walks every live class (`object.__subclasses__()` recursively) when it builds its
+    xsi index, so keeping thousands of generated dataclasses alive makes every later context slower
+    (quadratic over a thorough run: C08's thorough tier went from 1630 s to 404 s with this).  `uni_of`
+    re-creates a universe from its description when a later stage (search, replay) needs it again."""
+    import gc
+
+    for name in list(_GENERATED):
+        u = _UNIS.pop(name, None)
+        if u is not None:
+            try:
+                u.close()
+            except Exception:  # noqa: BLE001, S110
+                pass
+    _GENERATED.clear()
+    gc.collect()
 
 
 def new_universe(rng, features=None):
@@ -30,6 +50,7 @@ def new_universe(rng, features=None):
         except Exception:  # noqa: BLE001  (a description the real builder rejects: not our subject here)
             continue
         _UNIS[u.modname] = u
+        _GENERATED.add(u.modname)
         return u, desc, ctx
     raise RuntimeError("could not build a universe")
 
